@@ -76,7 +76,7 @@ CHECKS["C16"] = dict(
     text=("Coq theorems generic in the default table (instantiated on the tables regenerated from the module for all 11 versions): each "
           "setting written at most once, user values exact, disabled settings silent, grow-only settings never lowered when bellows' own "
           "defaults (table or schema default) apply, packet-buffer count last, defaults written independently of answers. Tied to the real "
-          "EZSP.write_config by correspondence over versions x current values x override sets x answers."),
+          "EZSP.write_config by correspondence over versions x current values x override sets x answers. write_config is additionally emitted from its Python source on every run and proved to issue exactly the model's write plan whatever the writes return (c16_source_*)."),
     design_ref="DESIGN.md section 6 C16",
     technique="Coq proof over translator-generated tables + model/implementation correspondence",
 )
@@ -111,7 +111,7 @@ CHECKS["C06"] = dict(
           "request was sent; no frame completes another call; non-pending frames go to callbacks exactly once; at most one command in "
           "flight and it holds the slot; queue always sorted by (priority, arrival) and the head starts; no slot leak; sequence numbers "
           "consecutive mod 256; priority classes pinned over every command name of every version (generated). Tied to the real EZSP + "
-          "zigpy semaphore on a virtual loop by correspondence over exhaustive two-caller scripts and random multi-caller scripts."),
+          "zigpy semaphore on a virtual loop by correspondence over exhaustive two-caller scripts and random multi-caller scripts. The send and receive paths (ProtocolHandler.command, __call__, _get_command_priority) are additionally emitted from their Python source on every run and proved to make the model's state changes (c06_source_*)."),
     design_ref="DESIGN.md section 6 C06",
     technique="Coq proof (global invariant over event lists) + model/implementation correspondence in virtual time",
 )
@@ -121,7 +121,7 @@ CHECKS["C08"] = dict(
           "command is completed only by a frame with its own sequence number and frame id whose payload decodes fully; callbacks only for "
           "fully decoding known frames; malformed frames change nothing; id mismatch completes nobody; later commands still complete; a "
           "received frame never starts/cancels/times out commands. 'Never raises' is decided by the correspondence: real frame_received on "
-          "every truncation, byte flips, id/sequence substitution and random strings, versions 4/7/8/13/14 (thorough: all), inside try/except."),
+          "every truncation, byte flips, id/sequence substitution and random strings, versions 4/7/8/13/14 (thorough: all), inside try/except. EZSP.frame_received and ProtocolHandler.__call__ are additionally emitted from their Python source on every run and proved equal to the byte-level model (c08_source_receive)."),
     design_ref="DESIGN.md section 6 C08",
     technique="Coq proof over translator-generated tables + model/implementation correspondence on malformed frames",
 )
@@ -133,7 +133,7 @@ CHECKS["C09"] = dict(
           "own tables when supported else the newest, second query in the new layout iff the version differs, later frames in the adopted "
           "layout, a default-config table exists for the adopted handler (incl. unknown newer versions), legacy again after every reset. "
           "Tied to the code by correspondence on the FULL stack (real ASH, Gateway, EZSP, virtual time) against a simulated NCP for versions "
-          "4..14, 15, 16, 200 x serial / socket paths x second reset; single link faults explored with the property predicate."),
+          "4..14, 15, 16, 200 x serial / socket paths x second reset; single link faults explored with the property predicate. The bring-up methods are additionally emitted from their Python source on every run and proved to produce the model's commands and handlers for every reported version (c09_source_*)."),
     design_ref="DESIGN.md section 6 C09",
     technique="Coq proof over translator-generated tables + full-stack model/implementation correspondence",
     note=TB + "; link faults during bring-up are explored (exploration level), not proved here: the link is C01/C05's subject; the NCP simulator is an assumption about firmware",
@@ -171,7 +171,7 @@ CHECKS["C13"] = dict(
           "trustCenterJoinHandler schemas (both field orders; vm_compute over generated tables); unicast/multicast/broadcast yield exactly "
           "one packet with all fields equal to the callback's and the destination by type, other types none; join/leave/denied triage. Tied "
           "to the code by correspondence: frames built by an independent byte-level encoder pushed through the real EZSP.frame_received "
-          "into the real ControllerApplication for every version, model = decode over generated tables + translate."),
+          "into the real ControllerApplication for every version, model = decode over generated tables + translate. The dispatch, both unpackings, _handle_frame and the join handler are additionally emitted from their Python source on every run and proved equal to the model's translation (c13_source_*)."),
     design_ref="DESIGN.md section 6 C13",
     technique="Coq proof over translator-generated callback schemas + byte-level model/implementation correspondence",
 )
@@ -183,7 +183,7 @@ CHECKS["C20"] = dict(
           "plain methods are queued and must return nothing, closed loops drop without executing. NOT provable in Coq: which OS thread "
           "runs a body and what happens while the owner loop is stopping -- those are explored with real threads (thread identity recorded "
           "inside the wrapped method) for every method kind x caller loop x owner state x burst size; running/closed outcomes are also "
-          "compared with the model."),
+          "compared with the model. The decision tree of __getattr__ / func_wrapper is additionally emitted from its Python source and proved equal to the model's dispatch (c20_source_decision)."),
     design_ref="DESIGN.md section 6 C20",
     technique="Coq proof of the dispatch/relay logic + runtime exploration with real threads (partial)",
     note=TB + "; thread scheduling is not controlled, the runtime half has exploration-level assurance only",
@@ -196,7 +196,7 @@ CHECKS["C17"] = dict(
           "command AND the matching status event after the start, in order; the event is observed whether it comes before or after the "
           "command's reply; refusal / not-joined / timeout raise; a scan returns exactly the results between start and completion, in "
           "order, none from before; after any history, when no operation is active no listener or callback remains. Tied to the real EZSP "
-          "and ControllerApplication by correspondence over all event orders up to a bound, batches and repeated operations."),
+          "and ControllerApplication by correspondence over all event orders up to a bound, batches and repeated operations. The listener registry, the wait_for_stack_status context manager and the scan callback are additionally emitted from their Python source and proved to refine the model's registry operations on every exit path (c17_source_*)."),
     design_ref="DESIGN.md section 6 C17",
     technique="Coq proof (operation invariant over event histories) + model/implementation correspondence in virtual time",
 )
@@ -238,7 +238,7 @@ CHECKS["C12"] = dict(
           "its submission (trace theorem); refusal / confirmed failure / no confirmation / still busy after the last retry raise; foreign, "
           "duplicate and unsolicited confirmations complete nothing; no bookkeeping remains; commands are only ever issued by the unique "
           "holder of the request lock (set-up + send atomic); busy statuses pinned through the C18 tables. Tied to the real "
-          "ControllerApplication.send_packet and the real per-version wrappers by correspondence (versions 4/8/13/14, thorough 4..14)."),
+          "ControllerApplication.send_packet and the real per-version wrappers by correspondence (versions 4/8/13/14, thorough 4..14). _handle_frame_sent and the messageSentHandler unpacking are additionally emitted from their Python source and proved to be the model's confirmation step (c12_source_*)."),
     design_ref="DESIGN.md section 6 C12",
     technique="Coq proof (global invariant over event histories) + model/implementation correspondence in virtual time",
     note=TB + "; zigpy.util.Requests is the harness re-implementation; the extended-timeout set-up is one command in the harness",
